@@ -7,6 +7,7 @@ with a mask.  The oracle is ``docs/data_types.rst`` parsed at run time (vtlmc/c0
 with-mask tables, dataset-cast renaming table, "Conversion details" / "Key rules" bullets and the type reference
 sections; the reference conversion rules are calibrated against the worked examples of the document itself.
 """
+import hashlib
 import re
 
 from vtlmc import c09_ref as R
@@ -265,6 +266,34 @@ class PairJudge:
                           "(must be a SemanticError), but: %s" % (self.src, self.tgt, "; ".join(
                               "%s level [%s]: %s" % (l, script_for(l, self.src, self.tgt, self.entries[:1]).replace("\n", " "),
                                                      ", ".join(accepted[l])) for l in LEVELS if l in accepted)), None)
+        if accepted and fmt == "vtl":
+            # the pair is a violation whatever it returns; what it returns is part of the finding's identity, so that a
+            # change of the undocumented conversion (another violation of the same property) is not hidden by a known finding
+            groups = {}
+            for e in self.entries:
+                lab, v = e
+                if v is None:
+                    continue
+                shown = {}
+                for level in LEVELS:
+                    if level not in accepted:
+                        continue
+                    o = self.rl(level, fmt, [e])[1].get(lab)
+                    if o is None or o[0] == "unavailable":
+                        continue
+                    shown[level] = ("%r" % (o[1],)) if o[0] == "ok" else ("%s:%s" % (o[2], o[3] or o[1]))
+                if not any(not x.startswith(("RunTimeError", "SemanticError", "InputValidationException")) for x in shown.values()):
+                    continue        # nothing is converted for this value
+                vals = sorted(set(shown.values()))
+                res = vals[0] if len(vals) == 1 else "+".join("%s=%s" % (l, shown[l]) for l in LEVELS if l in shown)
+                groups.setdefault(res, []).append((lab, v))
+            for res, members in groups.items():
+                vs = [v for _, v in members]
+                ident = re.sub(r"[\s\[\]*?]", "_", str(vs[0])) if len(vs) == 1 else "%d-values-%s" % (
+                    len(vs), hashlib.sha1(repr(sorted(map(str, vs))).encode()).hexdigest()[:8])
+                key = "C09:forbidden-pair-value:%s->%s:%s:returns:%s" % (self.src, self.tgt, ident, re.sub(r"[\s\[\]*?]", "_", res))
+                found[key] = ("cast from %s to %s is forbidden by the documented tables (must be a SemanticError) but the value(s) %s "
+                              "are converted: result %s" % (self.src, self.tgt, vs, res), [lab for lab, _ in members])
         if raws:
             key = "C09:pair:%s->%s:raw-error%s" % (self.src, self.tgt, _at(raws, LEVELS))
             found[key] = ("cast from %s to %s (forbidden by the documented table) does not raise a SemanticError but a raw error: %s"
